@@ -152,7 +152,14 @@ class BoundRef:
 class ModelRaise(Exception):
     """A modelled callee raised: the calling statement raises too."""
     def __init__(self, outcome):
-        super().__init__("callee raises")
+        node = getattr(outcome, "node", None)
+        where = ""
+        if node is not None:
+            try:
+                where = f" at line {getattr(node, 'lineno', '?')}: {ast.unparse(node)[:90]}"
+            except Exception:  # noqa: BLE001
+                where = ""
+        super().__init__("callee raises" + where)
         self.outcome = outcome
 
 
@@ -176,6 +183,18 @@ class Evaluator:
 
     # ------------------------------------------------------------- expressions
     def ev(self, e: ast.expr) -> Any:
+        if isinstance(e, ast.Attribute) and isinstance(e.value, ast.Name) and isinstance(self.env.get(e.value.id), Obj) and "_cls" in self.env[e.value.id].__dict__ \
+                and ast.unparse(e) not in self.env:
+            # an attribute of a class-tagged model object is looked up on the object and its own class first (dynamic dispatch); only
+            # then is the name folded in the context of the class whose method happens to be evaluated
+            base0 = self.env[e.value.id]
+            if e.attr in base0.__dict__:
+                return base0.__dict__[e.attr]
+            hook0 = getattr(self, "call_value", None)
+            if hook0 is not None:
+                v0 = hook0(ast.copy_location(ast.Call(func=e, args=[], keywords=[]), e), self)
+                if v0 is not NOT_MODELLED:
+                    return v0
         if self.sym is not None:
             v = self.sym(e)
             if v is not None:
